@@ -318,7 +318,7 @@ class Ring:
             if x.id in memo:
                 stack.pop()
                 continue
-            if self.deadline is not None and _time.time() > self.deadline:
+            if self.deadline is not None and _time.process_time() > self.deadline:
                 raise TooBig()
             op = x.op
             if op in ("add", "mul", "div"):
@@ -416,6 +416,30 @@ class Ring:
 
     def key(self, r: Rat):
         return (p_key(r.num), tuple(sorted(r.den.items())))
+
+    # ---- back to expressions
+    def _poly_expr(self, p: Poly) -> Expr:
+        terms = []
+        for m, c in sorted(p.items(), key=lambda kv: _lexkey(kv[0])):
+            fs = [E.const(c)]
+            for a, k in m:
+                fs.extend([self.atom_expr[a]] * k)
+            terms.append(E.mul(*fs))
+        return E.add(*terms) if terms else E.ZERO
+
+    def simplified(self, e: Expr) -> Expr:
+        """An expression equal to e (as a rational function of the atoms) rebuilt from its normal form: cancels what the
+        ring can cancel (R^T R, s / s, ...) so that e.g. a coordinate that is linear in the free symbols also looks linear."""
+        r = self.normal(e)
+        num = self._poly_expr(self.reduce(r.num) if self.relations else r.num)
+        if not r.den:
+            return num
+        den = E.ONE
+        for fk, k in r.den.items():
+            f = self._poly_expr(self.factors[fk])
+            for _ in range(k):
+                den = E.mul(den, f)
+        return E.div(num, den)
 
     # ---- queries
     def is_zero(self, e: Expr) -> bool:
